@@ -374,7 +374,10 @@ def fs_rel(a, b, perm=None):
 def lifetimes(graph):
     life = {}
     for d in graph['demes']:
-        life[d['name']] = (d.get('start_time', INF), d['epochs'][-1]['end_time'])
+        st = d.get('start_time')
+        if st is None:
+            st = life[d['ancestors'][0]][1] if d.get('ancestors') else INF      # default: the end of the (single) ancestor
+        life[d['name']] = (st, d['epochs'][-1]['end_time'])
     return life
 
 def slice_data(graph, t):
@@ -385,7 +388,7 @@ def slice_data(graph, t):
     g = {k: v for k, v in graph.items() if k not in ('demes', 'migrations', 'pulses')}
     g['demes'] = []
     for d in graph['demes']:
-        st = d.get('start_time', INF)
+        st = life[d['name']][0]
         if st <= t:
             continue
         nd = {k: copy.deepcopy(v) for k, v in d.items() if k not in ('epochs', 'start_time')}
@@ -729,7 +732,22 @@ def numeric_jobs(ctx, c, r, info):
         jobs.append(('ancient-as-explicit-frozen-branch', j, None, key))
     return jobs
 
+def dedup_violations(ctx):
+    """one violation per key (the first, i.e. smallest, input); further inputs of the same class are only counted"""
+    orig = ctx.violation
+    seen = {}
+    def violation(what, data=None, key=None, no_input=False, broken=None):
+        if key is not None:
+            if key in seen:
+                seen[key] += 1
+                ctx.count('further inputs for ' + key)
+                return
+            seen[key] = 1
+        orig(what, data=data, key=key, no_input=no_input, broken=broken)
+    ctx.violation = violation
+
 def run(ctx):
+    dedup_violations(ctx)
     ctx.rule = ('log cases = random demes graphs (forward construction: splits, branches, mergers, admixtures, renames, extinctions, '
                 'epoch changes at random dyadic times; constant / exponential / linear epochs; symmetric and asymmetric migrations '
                 'with own time spans; pulses with 1-3 sources; <= 2..5 simultaneous demes incl. frozen branches), random sampled '
@@ -786,7 +804,7 @@ def run(ctx):
         load_yaml_graphs(cases)
         log_phase(ctx, cases, model_wiring, pnu, bad_frozen)
     if do_export:
-        export_phase(ctx, progs, pulses_bad)
+        export_phase(ctx, progs, pulses_bad, pnu)
 
 def log_phase(ctx, cases, wiring, pnu, bad_frozen):
     res = impl_chunks('log', [strip(c) for c in cases])
@@ -981,41 +999,114 @@ def forced_programs():
         out.append((base5 + [['pulse', dest, [0.125, 0.0, 0.25, 0.0]], ['integrate', 0.03125, sf(5), None, None]], 5, 'forced-5D-pulse-into-%d' % dest))
     return out
 
-def integ_records(calls):
-    out = []
-    for x in calls:
-        if x['fn'] in INTEG:
-            d = INTEG.index(x['fn']) + 1; a = x['args']
-            def val(v):
-                return [p[1] for p in v['f']] if isinstance(v, dict) else [v] * 5
-            nus = [val(a['nu' if d == 1 else 'nu%d' % k]) for k in range(1, d + 1)]
-            M = [[0.0 if i == j else a['m%d%d' % (i + 1, j + 1)] for j in range(d)] for i in range(d)] if d > 1 else [[0.0]]
-            out.append((a['T'], nus, M))
-    return out
-
 def close(a, b, tol=1e-9):
-    return abs(a - b) <= tol * max(abs(a), abs(b), 1e-300) or a == b
+    return a == b or abs(a - b) <= tol * max(abs(a), abs(b))
 
-def same_integrations(c0, c1):
-    """every integration of the re-imported program equals the corresponding original one up to a relabelling of the
-    populations (T, size functions by value, migration matrix)"""
-    r0 = integ_records(c0); r1 = integ_records(c1)
-    if len(r0) != len(r1):
-        return False, 'number of integrations %d != %d' % (len(r0), len(r1))
-    for k, ((T0, n0, M0), (T1, n1, M1)) in enumerate(zip(r0, r1)):
-        d = len(n0)
-        if len(n1) != d or not close(T0, T1):
-            return False, 'integration %d: T %r vs %r, %d vs %d populations' % (k, T0, T1, d, len(n1))
-        found = False
-        for p in itertools.permutations(range(d)):
-            if all(all(close(x, y) for x, y in zip(n0[i], n1[p[i]])) for i in range(d)) and \
-               all(close(M0[i][j], M1[p[i]][p[j]]) for i in range(d) for j in range(d)):
-                found = True; break
-        if not found:
-            return False, 'integration %d: sizes / migration differ under every relabelling' % k
-    return True, ''
+def history(calls):
+    """the program as a labelled history: every axis carries a label; a split gives both resulting axes fresh labels
+    (the density after a split is symmetric in them), admixture creates one new label, pulses / removal refer to labels"""
+    cnt = itertools.count()
+    axes = []; H = []
+    def val(v):
+        return [p[1] for p in v['f']] if isinstance(v, dict) else [v] * 5
+    for x in calls:
+        fn = x['fn']; a = x['args']
+        if fn == 'phi_1D':
+            axes = [next(cnt)]; H.append(('init', axes[0], a['nu']))
+        elif fn in INTEG:
+            d = INTEG.index(fn) + 1
+            nus = {axes[k]: val(a['nu' if d == 1 else 'nu%d' % (k + 1)]) for k in range(d)}
+            M = {(axes[i], axes[j]): a['m%d%d' % (i + 1, j + 1)] for i in range(d) for j in range(d) if i != j and a['m%d%d' % (i + 1, j + 1)] != 0} if d > 1 else {}
+            fr = {axes[k]: bool(a['frozen' if d == 1 else 'frozen%d' % (k + 1)]) for k in range(d)}
+            H.append(('int', a['T'], nus, M, fr, list(axes)))
+        elif fn in ('phi_1D_to_2D', 'phi_2D_to_3D_split_1', 'phi_2D_to_3D_split_2', 'phi_2D_to_3D_admix', 'phi_3D_to_4D', 'phi_4D_to_5D'):
+            d = len(axes)
+            if fn == 'phi_1D_to_2D': props = [1]
+            elif fn == 'phi_2D_to_3D_split_1': props = [1, 0]
+            elif fn == 'phi_2D_to_3D_split_2': props = [0, 1]
+            else:
+                fs = [a[k] for k in ('f1', 'f2', 'f3') if k in a]
+                props = fs + [1 - sum(fs)]
+            nz = [i for i, pp in enumerate(props) if pp != 0]
+            if len(nz) == 1:
+                i = nz[0]; par = axes[i]; c1, c2 = next(cnt), next(cnt)
+                axes[i] = c1; axes.append(c2); H.append(('split', par, (c1, c2)))
+            else:
+                c = next(cnt); H.append(('admix', {axes[i]: props[i] for i in nz}, c)); axes.append(c)
+        elif fn in PULSE_OF:
+            d, dest = PULSE_OF[fn]
+            fs = [v for k, v in a.items() if k.startswith('f')]
+            others = [axes[i] for i in range(d) if i != dest - 1]
+            src = {o: f for o, f in zip(others, fs) if f != 0}
+            if src:
+                H.append(('pulse', axes[dest - 1], src))
+        elif fn == 'remove_pop':
+            H.append(('remove', axes[a['popnum'] - 1])); del axes[a['popnum'] - 1]
+        elif fn == 'reorder_pops':
+            axes = [axes[i - 1] for i in a['neworder']]
+        elif fn == 'from_phi':
+            H.append(('final', tuple(axes), tuple(a['ns'])))
+    return H
 
-def export_phase(ctx, progs, pulses_bad):
+def match_histories(H0, H1):
+    """(ok, same_axis_order, why): is there a relabelling under which the two histories coincide?  same_axis_order: every
+    integration with migration then also runs with the populations in the same order"""
+    if [e[0] for e in H0] != [e[0] for e in H1]:
+        return False, False, 'event sequences differ: %s vs %s' % ([e[0] for e in H0], [e[0] for e in H1])
+    why = ['']
+    def dmatch(d0, d1, m, cmpv):
+        if len(d0) != len(d1):
+            return False
+        for k, v in d0.items():
+            k1 = tuple(m.get(x) for x in k) if isinstance(k, tuple) else m.get(k)
+            if k1 not in d1 or not cmpv(v, d1[k1]):
+                return False
+        return True
+    def go(k, m, same):
+        if k == len(H0):
+            return True, same
+        e0, e1 = H0[k], H1[k]
+        t = e0[0]
+        if t == 'init':
+            if not close(e0[2], e1[2]):
+                why[0] = 'initial size %r vs %r' % (e0[2], e1[2]); return False, False
+            return go(k + 1, dict(m, **{e0[1]: e1[1]}), same)
+        if t == 'int':
+            okk = close(e0[1], e1[1]) and dmatch(e0[2], e1[2], m, lambda u, v: all(close(x, y) for x, y in zip(u, v))) \
+                and dmatch(e0[3], e1[3], m, close) and dmatch(e0[4], e1[4], m, lambda u, v: u == v)
+            if not okk:
+                why[0] = 'integration %d differs under the relabelling (T %r vs %r)' % (k, e0[1], e1[1]); return False, False
+            s2 = same and (not e0[3] or [m[x] for x in e0[5]] == e1[5])
+            return go(k + 1, m, s2)
+        if t == 'split':
+            if m.get(e0[1]) != e1[1]:
+                why[0] = 'event %d: another population is split' % k; return False, False
+            for c in (e1[2], e1[2][::-1]):
+                r = go(k + 1, dict(m, **{e0[2][0]: c[0], e0[2][1]: c[1]}), same)
+                if r[0]:
+                    return r
+            return False, False
+        if t == 'admix':
+            if not dmatch(e0[1], e1[1], m, close):
+                why[0] = 'event %d: admixture proportions differ' % k; return False, False
+            return go(k + 1, dict(m, **{e0[2]: e1[2]}), same)
+        if t == 'pulse':
+            if m.get(e0[1]) != e1[1] or not dmatch(e0[2], e1[2], m, close):
+                why[0] = 'event %d: pulse differs' % k; return False, False
+            return go(k + 1, m, same)
+        if t == 'remove':
+            if m.get(e0[1]) != e1[1]:
+                why[0] = 'event %d: another population is removed' % k; return False, False
+            return go(k + 1, m, same)
+        if t == 'final':
+            if tuple(m.get(x) for x in e0[1]) != e1[1] or e0[2] != e1[2]:
+                why[0] = 'final order of the populations differs'; return False, False
+            return go(k + 1, m, same)
+        return False, False
+    ok, same = go(0, {}, True)
+    return ok, same, '' if ok else why[0]
+
+def export_phase(ctx, progs, pulses_bad, pnu):
     rng = ctx.rng
     if progs is None:
         progs = []
@@ -1025,7 +1116,7 @@ def export_phase(ctx, progs, pulses_bad):
             maxd = dist[i % len(dist)]
             ops, d = G.gen_program(rng, maxd)
             progs.append({'ops': ops, 'ns': [rng.randint(1, 3 if d <= 3 else 2) for _ in range(d)], 'pts': {1: 14, 2: 12, 3: 9, 4: 6, 5: 5}[maxd],
-                          'Nref': rng.choice([1.0, 2.0, 8.0, 100.0]), 'gen_time': rng.choice([None, None, 25.0]), 'tag': 'random'})
+                          'Nref': rng.choice([8.0, 16.0, 100.0, 1000.0]), 'gen_time': rng.choice([None, None, 25.0]), 'tag': 'random'})
         for ops, d, tag in forced_programs():
             progs.append({'ops': ops, 'ns': [1] * d, 'pts': {4: 6, 5: 5}[d], 'Nref': 4.0, 'gen_time': None, 'tag': tag})
         for f, sampled, ns, pts in YAMLS:
